@@ -176,11 +176,10 @@ def run_path(contract, func, loader, contracts_by_target, variant, prefix):
         except PyRaise as e:
             outcome = ("raise", e.cls, e.msg)
         pr.outcome = outcome[:2]
+        pr.cover = list(ctx.pc[:])      # reachability cover: the path condition when the function finished
         contract.post(v, variant, v.env, outcome)
         if hasattr(contract, "mustfail") and outcome[0] == "return":
             contract.mustfail(v, variant, v.env, outcome)
-        # reachability cover for this path
-        pr.cover = list(ctx.pc[:])
     except PathEnd:
         pr.status = "ended"
     except Infeasible:
@@ -215,6 +214,9 @@ def _uses_strings(fs):
 def discharge(ob: Obligation, timeout_ms=None, try_cvc5=True):
     """prove hyps |- goal.  result in {'proved','refuted','unknown'}"""
     timeout_ms = timeout_ms or Z3_TIMEOUT_MS
+    if ob.kind == "mustfail":
+        timeout_ms = min(timeout_ms, 3000)
+        try_cvc5 = False
     t0 = time.time()
     fs = list(ob.hyps) + [z3.Not(ob.goal)]
     if _uses_strings(fs):
@@ -236,6 +238,9 @@ def discharge(ob: Obligation, timeout_ms=None, try_cvc5=True):
     else:
         ob.result = "unknown"
         ob.reason = s.reason_unknown()
+        if ob.kind == "mustfail":
+            ob.seconds = time.time() - t0
+            return ob.result
         # second opinion: different z3 configuration, then cvc5
         for tactic in ("qfnra", "smt-arith"):
             try:
@@ -267,8 +272,38 @@ def discharge(ob: Obligation, timeout_ms=None, try_cvc5=True):
             if r3 == "unsat":
                 ob.result = "proved"
                 ob.backend = "cvc5-cli"
+        if ob.result == "unknown":
+            # candidate counter-model: drop the quantified hypotheses (a model of the rest usually extends to them,
+            # but this is NOT a refutation: the check only believes it when the replay harness reproduces a failure)
+            qf = [f for f in fs if not _has_quantifier(f)]
+            if len(qf) < len(fs):
+                s4 = z3.Solver()
+                s4.set("timeout", min(timeout_ms, 5000))
+                s4.add(*qf)
+                if s4.check() == z3.sat:
+                    ob.reason = "unknown with quantified hypotheses; sat (candidate counter-model) without them"
+                    try:
+                        m = s4.model()
+                        ob.model = {str(d): str(m[d]) for d in m.decls()}
+                    except Exception:
+                        ob.model = {}
     ob.seconds = time.time() - t0
     return ob.result
+
+
+def _has_quantifier(f):
+    seen = set()
+    stack = [f]
+    while stack:
+        e = stack.pop()
+        if z3.is_quantifier(e):
+            return True
+        i = e.get_id()
+        if i in seen:
+            continue
+        seen.add(i)
+        stack.extend(e.children())
+    return False
 
 
 def run_cvc5(smt2, timeout_ms):
